@@ -22,6 +22,7 @@ import (
 	"fmt"
 	"go/ast"
 	"go/token"
+	"go/types"
 	"os"
 	"path/filepath"
 	"sort"
@@ -205,6 +206,33 @@ func genProto() {
 		dd = protoStringArgs(fd.Body, "strings.Contains", 1)
 	}
 	l.strList("dotdotChecks", dd)
+	// internal/multiplex: how the handler cuts the envelope name and how the client builds it
+	var muxSplit, muxJoin []string
+	if fd := protoMethod(parse("internal/multiplex/handler.go"), "Handler", "Handle"); fd != nil {
+		ast.Inspect(fd.Body, func(x ast.Node) bool {
+			if c, ok := x.(*ast.CallExpr); ok && strings.HasPrefix(protoCallName(c), "strings.") {
+				muxSplit = append(muxSplit, types.ExprString(c))
+			}
+			if ix, ok := x.(*ast.IndexExpr); ok {
+				muxSplit = append(muxSplit, types.ExprString(ix))
+			}
+			return true
+		})
+	}
+	if fd := protoMethod(parse("internal/multiplex/client.go"), "client", "Send"); fd != nil {
+		ast.Inspect(fd.Body, func(x ast.Node) bool {
+			if c, ok := x.(*ast.CallExpr); ok {
+				for _, a := range c.Args {
+					if be, ok := a.(*ast.BinaryExpr); ok {
+						muxJoin = append(muxJoin, types.ExprString(be))
+					}
+				}
+			}
+			return true
+		})
+	}
+	l.strList("muxSplit", muxSplit)
+	l.strList("muxJoin", muxJoin)
 	featureGate := []string{}
 	if fd := protoMethod(transport, "transportHandle", "ServiceGenerator"); fd != nil {
 		ast.Inspect(fd.Body, func(x ast.Node) bool {
